@@ -68,6 +68,20 @@ type FilterNode struct {
 	filterRequirements nodeFilterRequirements
 }
 
+// isDeclaredOn reports whether the node holds the flows declared on this very URL.
+// The lookup of a bare host (a.com) also finds the node of host/* (a.com/*) and reports the same
+// normalized URL for it: flows of the bare host must not join that node.
+func (node *FilterNode) isDeclaredOn(url string) bool {
+	for _, flows := range [][]internaltypes.FlowI{
+		node.userFlows, node.systemFlowStart, node.systemFlowEnd,
+	} {
+		if len(flows) > 0 {
+			return flows[0].GetFilter().GetURL() == url
+		}
+	}
+	return false
+}
+
 func (node *FilterNode) addSystemFlowStart(flow internaltypes.FlowI) error {
 	node.systemFlowStart = append(node.systemFlowStart, flow)
 	return nil
